@@ -48,6 +48,8 @@ func checkC06(c *Ctx) {
 	if c.Tier == "thorough" {
 		cfgs = append(cfgs, "darwin", "freebsd")
 	}
+	c.Rule("C06-R16", "the read deadline that gets the input loop out of a blocked Read keeps working: a Tty implementation that opens its own handle and wakes its reader with a deadline never calls Fd() on that handle (Fd switches the descriptor to blocking mode; Suspend and Fini would wait for the next key)")
+	c.Expect("C06-R16", 1)
 	c.Rule("C06-R15", "every way round a loop of inputLoop that contains the Tty read passes the test of the stop channel (a reader that returns empty-handed must not spin past it: Suspend and Fini would wait for ever)")
 	c.Expect("C06-R15", 1)
 	for _, cfg := range cfgs {
@@ -73,6 +75,7 @@ func checkC06(c *Ctx) {
 		checkTtyRestart(c, p, "C06-R13")
 		checkFiniNotLockedOut(c, p, "C06-R14", "simscreen")
 		checkReadLoopPassesStop(c, p, "C06-R15")
+		checkDeadlineHandleStaysPollable(c, p, "C06-R16")
 		for _, f := range []string{"tty", "ti"} {
 			ws := []string{}
 			for _, fn := range p.modFns {
@@ -628,6 +631,39 @@ func c06DrawProgress(c *Ctx, p *Prog) {
 			where = p.pos(in.Pos())
 		}
 	})
+	if !gated {
+		// … or the test is made by every caller instead (`if !t.fini && t.running { t.resize(); t.draw() }`)
+		running := func(b *ssa.BasicBlock) bool {
+			for _, a := range guardsAt(b) {
+				if a.L == "t.running" && ((a.Op == "==" && a.R == "true") || (a.Op == "!=" && a.R == "false")) {
+					return true
+				}
+			}
+			return false
+		}
+		nCall, all, first := 0, true, ""
+		for _, f := range p.modFns {
+			if f.Pkg != p.Tcell {
+				continue
+			}
+			eachInstr(f, func(in ssa.Instruction) {
+				if cc := callCommon(in); cc != nil && cc.StaticCallee() == draw {
+					nCall++
+					if !running(in.Block()) {
+						all = false
+						if first == "" {
+							first = "; the caller at " + p.pos(in.Pos()) + " (" + f.Name() + ") does not test it either"
+						}
+					}
+				}
+			})
+		}
+		if nCall > 0 && all {
+			gated = true
+		} else {
+			where += first
+		}
+	}
 	c.Check(gated, "C06-R8", "draw:only-while-running", p.pos(draw.Pos()), "draw() does nothing unless t.running "+where)
 	// (b) the column loop advances by at least one cell per iteration, however the step is written
 	// (x += width-1 with x++, x += width, a floor applied to the width first or in the step …): a
